@@ -1,5 +1,5 @@
 (* C12/Properties.v -- pinned statements of property C12 (JSON-LD serialisation round trip). *)
-From Sophia.C12 Require Import Model Proofs Calls CallsProofs Back BackProofs RoundTripFacts RoundTripValues RoundTripDoc Wide WideProofs.
+From Sophia.C12 Require Import Model Proofs Calls CallsProofs Back BackProofs RoundTripFacts RoundTripValues RoundTripDoc Wide WideProofs Labels LabelsProofs.
 
 (* ---------- (1) the filter ---------- *)
 Check (is_jsonld_spec : forall info q, is_jsonld info q = true <-> representable info q).
@@ -355,3 +355,67 @@ Print Assumptions text_dedup_refuted.
 Print Assumptions values_ok_distinct.
 Print Assumptions lookalikes_after_40.
 Print Assumptions euro_bytes.
+
+(* ---------- (10) blank node labels (Labels.v): the identifier of a blank node is "_:" + its label, character for character ---------- *)
+(* distinct labels, however alike, have distinct identifiers, which JSON-LD reads as blank node identifiers carrying that label *)
+Check (bnode_written_injective : forall a b, bnode_written a = bnode_written b -> a = b).
+Check (label_of_spec : forall s l, label_of s = Some l <-> s = bnode_written l).
+Check (written_is_blank : forall l, expand_id (bnode_written l) = EBlank (bnode_written l)).
+Check (written_distinct : forall a b, a <> b -> str_eqb (bnode_written a) (bnode_written b) = false).
+(* the reader (rdf-types' blank node identifiers) takes back exactly the labels of BnodeId that have no '.' (KNOWN for "_:a.b") *)
+Check (dotless_label_read_back : forall l, bnode_id_ok l = true -> has_dot l = false -> read_as_blank l = true).
+Check (dotted_label_not_read_back : forall l, bnode_id_ok l = true -> has_dot l = true -> read_as_blank l = false).
+Check (read_back_iff_dotless : forall l, bnode_id_ok l = true -> read_as_blank l = negb (has_dot l)).
+Check (dot_label_refuted : exists l, bnode_id_ok l = true /\ read_as_blank l = false).
+(* writers that clean the label (replace, drop, fold the case, cut) merge distinct blank nodes *)
+Check (clean_writer_refuted : exists a b, a <> b /\ bnode_id_ok a = true /\ bnode_id_ok b = true
+  /\ bnode_written_clean a = bnode_written_clean b).
+Check (clean_writer_refuted_middle_dot : exists a b, a <> b /\ bnode_id_ok a = true /\ bnode_id_ok b = true
+  /\ bnode_written_clean a = bnode_written_clean b).
+Check (drop_writer_refuted : exists a b, a <> b /\ bnode_id_ok a = true /\ bnode_id_ok b = true
+  /\ bnode_written_drop a = bnode_written_drop b).
+Check (lower_writer_refuted : exists a b, a <> b /\ bnode_id_ok a = true /\ bnode_id_ok b = true
+  /\ bnode_written_lower a = bnode_written_lower b).
+Check (cut_writer_refuted : forall n, exists a b, a <> b /\ bnode_id_ok a = true /\ bnode_id_ok b = true
+  /\ bnode_written_cut n a = bnode_written_cut n b).
+(* the harness-facing checker *)
+Check (labels_ok_sound : forall all input observed, labels_ok all input observed = true ->
+  forall s, In s observed -> exists l, In l input /\ s = bnode_written l /\ label_of s = Some l).
+Check (labels_ok_complete : forall input observed, labels_ok true input observed = true ->
+  (forall l, In l input -> In (bnode_written l) observed)
+  /\ NoDup input /\ NoDup observed /\ length observed = length input).
+Check (labels_ok_no_merge : forall input observed, labels_ok true input observed = true ->
+  forall a b, In a input -> In b input -> a <> b ->
+  exists ia ib, In ia observed /\ In ib observed /\ ia <> ib /\ label_of ia = Some a /\ label_of ib = Some b).
+(* non-vacuity: the labels e-acute, e-grave, a-middle-dot-b, a_b, a.b, U+10000, 0 are labels; their identifiers are accepted as written
+   and refused when two of them are merged into "_:_" or "_:a_b"; a.b is the only one not read back; "", "-a", "a.", "a..b", ":a" are no labels *)
+Example accented_labels :
+  let ls := [[233]; [232]; [97; 183; 98]; [97; 95; 98]; [97; 46; 98]; [65536]; [48]] in
+  forallb bnode_id_ok ls = true
+  /\ labels_ok true ls (map bnode_written ls) = true
+  /\ labels_ok true ls (map bnode_written_clean ls) = false
+  /\ labels_ok false ls (map bnode_written_clean ls) = false
+  /\ labels_ok false [[233]; [232]] [[95; 58; 95]] = false
+  /\ labels_ok false [[97; 183; 98]; [97; 95; 98]] [[95; 58; 97; 95; 98]] = true
+  /\ labels_ok true [[97; 183; 98]; [97; 95; 98]] [[95; 58; 97; 95; 98]] = false
+  /\ map read_as_blank ls = [true; true; true; true; false; true; true]
+  /\ map bnode_id_ok [[]; [45; 97]; [97; 46]; [97; 46; 46; 98]; [58; 97]; [183; 97]; [97; 32; 98]] = [false; false; false; false; false; false; false]
+  /\ label_ok [97; 46; 98] true false = true /\ label_ok [233] true true = true /\ label_ok [97; 46] false false = true.
+Proof. vm_compute. repeat split. Qed.
+Print Assumptions bnode_written_injective.
+Print Assumptions label_of_spec.
+Print Assumptions written_is_blank.
+Print Assumptions written_distinct.
+Print Assumptions dotless_label_read_back.
+Print Assumptions dotted_label_not_read_back.
+Print Assumptions read_back_iff_dotless.
+Print Assumptions dot_label_refuted.
+Print Assumptions clean_writer_refuted.
+Print Assumptions clean_writer_refuted_middle_dot.
+Print Assumptions drop_writer_refuted.
+Print Assumptions lower_writer_refuted.
+Print Assumptions cut_writer_refuted.
+Print Assumptions labels_ok_sound.
+Print Assumptions labels_ok_complete.
+Print Assumptions labels_ok_no_merge.
+Print Assumptions accented_labels.
